@@ -136,6 +136,7 @@ class Average(Factory, Container):
             q = self.quantity(datum)
             if not isinstance(q, numbers.Real):
                 raise TypeError(f"function return value ({q}) must be boolean or number")
+            float(q)  # an int beyond the float range raises OverflowError here, before anything is updated
 
             # no possibility of exception from here on out (for rollback)
             if self.entries == 0.0:
